@@ -249,6 +249,8 @@ pub struct Runner {
     pub workers: usize,
     /// cap on proptest shrink iterations (expensive cases)
     pub max_shrink: Option<u32>,
+    /// per-property work factor applied to every `scale()` (set by the dispatcher from measured case costs)
+    pub factor: f64,
 }
 
 thread_local! {
@@ -334,6 +336,7 @@ impl Runner {
             harness_errors: Vec::new(),
             workers,
             max_shrink: None,
+            factor: 1.0,
         }
     }
 
@@ -343,7 +346,7 @@ impl Runner {
 
     /// pick a size by tier
     pub fn scale(&self, quick: u64, thorough: u64) -> u64 {
-        let base = if self.quick() { quick } else { thorough };
+        let base = ((if self.quick() { quick } else { thorough }) as f64 * self.factor) as u64;
         match std::env::var("VERIF_SCALE").ok().and_then(|s| s.parse::<f64>().ok()) {
             Some(f) => ((base as f64) * f).max(1.0) as u64,
             None => base,
